@@ -164,13 +164,16 @@ def main():
                                                   "from /repo no longer checks); the oracles found no failing input"))
         violations.append("VIOLATION property=%s replay=%s no-failing-input-found" % (prop, path))
 
+    lc = None
+    if args.tier == "thorough" and ok and not args.no_build:
+        lc = registry.leanchecker(prop)
     wall = time.time() - T0
     ev = dict(
         property_id=prop, tier=args.tier, seed=core.SEED, level="proof",
         coverage=dict(
             obligations=len(theorems), discharged=discharged,
             checker_cmd="cd /verif/lean && lake build && lake env lean <audit file with #print axioms for the registered theorems>"
-                        + (" && lake env leanchecker OASProofs" if args.tier == "thorough" else ""),
+                        + ((" && lake env leanchecker " + " ".join(R["modules"])) if args.tier == "thorough" else ""),
             trusted_base=registry.trusted_base(prop, sorted(axioms_seen)),
             theorems=theorems,
             evaluations=st.evaluations + rel_checked,
@@ -188,8 +191,8 @@ def main():
         assumptions=registry.assumptions(prop),
         wall_s=round(wall, 2), violations=len(violations),
     )
-    if args.tier == "thorough" and ok and not args.no_build:
-        lc_ok, lc_out = registry.leanchecker()
+    if lc is not None:
+        lc_ok, lc_out = lc
         ev["coverage"]["leanchecker"] = "ok" if lc_ok else lc_out[-500:]
         if not lc_ok:
             print(lc_out[-2000:]); print("INFRASTRUCTURE: leanchecker failed"); return 2
